@@ -328,6 +328,29 @@ func panicValues() []any {
 	return []any{"boom", errors.New("boom-error"), 42, structPanic{1, 2}, &structPanic{3, 4}, nil, fmt.Errorf("wrapped: %w", context.Canceled), []int{1}}
 }
 
+// classSet lists every named failure class err satisfies (errors.Is/As only).
+func classSet(err error) []string {
+	var out []string
+	if errors.Is(err, godi.ErrServiceNotFound) {
+		out = append(out, "not-found")
+	}
+	if kit.IsDisposed(err) {
+		out = append(out, "disposed")
+	}
+	if _, ok := kit.CircularPath(err); ok {
+		out = append(out, "circular")
+	}
+	var le *godi.LifetimeConflictError
+	var lev godi.LifetimeConflictError
+	if errors.As(err, &le) || errors.As(err, &lev) {
+		out = append(out, "lifetime-conflict")
+	}
+	if kit.IsAlreadyRegistered(err) {
+		out = append(out, "already-registered")
+	}
+	return out
+}
+
 func findPanic(err error) (any, bool) {
 	var pe *godi.ConstructorPanicError
 	if errors.As(err, &pe) {
@@ -505,6 +528,9 @@ func TestC15Faults(t *testing.T) {
 					return nil
 				}
 				return fail("C15", "reported", where+"/"+fmt.Sprint(flt.Kind), "%s succeeded although constructor r%d#%d failed", what, inv.Reg, inv.N)
+			}
+			if cs := classSet(e); len(cs) > 0 {
+				return fail("C15", "distinguishable", where+"/"+strings.Join(cs, "+"), "%s failed because constructor r%d#%d failed, yet the error also classifies as %v: %v", what, inv.Reg, inv.N, cs, firstLine(e))
 			}
 			switch flt.Kind {
 			case kit.FaultError:
@@ -704,6 +730,8 @@ func TestC15Classes(t *testing.T) {
 			}
 			if !ok {
 				f = fail("C15", "classifiable", want+"/"+where, "the %s error of a %s defect is not classifiable as such with errors.Is/As: %v", where, want, firstLine(got))
+			} else if cs := classSet(got); len(cs) != 1 {
+				f = fail("C15", "distinguishable", want+"/"+strings.Join(cs, "+"), "the %s error of a %s defect classifies as %v - the classes are not distinguishable: %v", where, want, cs, firstLine(got))
 			}
 			if f == nil && dupAt < 0 {
 				var be *godi.BuildError
